@@ -372,7 +372,8 @@ def budgetOf (s : String) : Option (Budget × BState × Bool) :=
   | "bucket" :: rest =>
       let p := rest.map fun x => x.toNat?.getD 0
       let m := p.getD 0 1
-      some (bucket m, ⟨p.getD 1 m, m⟩, false)
+      -- `TokenBucketBudget::new` clamps the initial balance to the burst capacity
+      some (bucket m, ⟨min (p.getD 1 m) m, m⟩, false)
   | "aimd" :: rest =>
       let p := rest.map fun x => x.toNat?.getD 0
       let mn := p.getD 0 1
